@@ -89,6 +89,7 @@ func VerifRoundTripW() {
 
 var vnRTSketches = [][2]string{
 	{"`x", "y`"}, {"\"", "\""}, {"/", "/"}, {"a=", ".b"}, {"/*!", "*/"},
+	{"x={\"", "\":1}"}, {"x={", ":1}"}, {"a", "b"}, {"a", "=b"}, {"class A{\"", "\"(){}}"}, {"x=", "n"},
 	{"+ +a", ""}, {"a+ ", "b"}, {"+ ", "a"}, {"- ", "a"}, {"a=+ ", "b"}, {"a=- ", "b"}, {"a- ", "b"}, {"for((a in b);;);", ""}, {"(let)[0]", ""}, {"1", ".a"}, {"a=", "n"},
 }
 
